@@ -48,6 +48,10 @@ type Control struct {
 	OnCommit func(wrote bool)
 	// OnRollback is called after a rollback (explicit or forced).
 	OnRollback func()
+	// OnFire is called when an injected fault fires, before the error is returned (the
+	// open transaction, if any, is still open: a crash image taken here is what a killed
+	// process leaves behind at that statement)
+	OnFire func()
 
 	// Changes lists the rows (table, rowid) inserted, updated or deleted by
 	// the transaction that is open or was committed last.
@@ -74,6 +78,9 @@ func NewControl() *Control { return &Control{Fired: map[string]int{}} }
 
 func (c *Control) fire(k string) {
 	c.Fired[k]++
+	if c.OnFire != nil {
+		c.OnFire()
+	}
 }
 
 func mkErr(kind string) error {
